@@ -161,3 +161,10 @@ def run_driver(driver_rel, requests, timeout=1800):
                            % (driver_rel, len(answers), len(requests), p.returncode,
                               p.stdout[-2000:], p.stderr[-2000:]))
     return answers
+
+
+def leanchecker(modules, timeout=1800):
+    """Independent re-check of the compiled .olean files (thorough tier). Returns (ok, tail of output)."""
+    p = subprocess.run(["lake", "env", "leanchecker"] + list(modules), cwd=paths.LEAN, env=_env(),
+                       stdout=subprocess.PIPE, stderr=subprocess.STDOUT, text=True, timeout=timeout)
+    return p.returncode == 0, p.stdout[-2000:]
